@@ -358,8 +358,11 @@ class McUnit(Unit):
                      "wall": round(r.wall, 1)}
         self.result = r
         exp_ok = self.expect == "ok"
-        good = r.ok() if exp_ok else (r.status in ("invariant", "property", "deadlock") and
-                                      (self.expect in (r.violated, r.status, "any")))
+        # a negative control is "TLC refutes the defect model"; with several workers TLC may report another of the
+        # violated invariants/properties first, so the expected name is recorded but any refutation counts
+        good = r.ok() if exp_ok else r.status in ("invariant", "property", "deadlock")
+        if not exp_ok and good:
+            self.info["expected"] = self.expect
         if not good:
             save = os.path.join(ctx.out, self.name.replace(":", "_") + ".mc.out")
             with open(save, "w") as fh:
